@@ -7,9 +7,10 @@ Kernels (source function -> generated definition):
   sequence/dna.py  _get_alphabet_encoding_complement_lookup           gen_new_alphabet, gen_alpha_lookup_same_encoding
   sequence/dna.py  complement                                         gen_complement_rewraps_current_shape
   sequence/dna.py  get_reverse_complement                             gen_revcomp_reverses_rows
-  sequence/dna.py  get_strand_specific_sequences                      gen_dna_slice_start, gen_dna_slice_stop, gen_dna_where
-  genomic_data/genomic_sequence.py  GenomicSequence.extract_intervals gen_genomic_where
-  sequence/genes.py  get_transcript_sequences                         gen_genes_where
+  sequence/dna.py  broadcast_row_mask                                 gen_row_mask_flat, gen_row_mask_shape_is_lengths
+  sequence/dna.py  get_strand_specific_sequences                      gen_dna_slice_start, gen_dna_slice_stop, gen_dna_where, gen_dna_mask
+  genomic_data/genomic_sequence.py  GenomicSequence.extract_intervals gen_genomic_where, gen_genomic_mask
+  sequence/genes.py  get_transcript_sequences                         gen_genes_where, gen_genes_mask
   sequence/translate.py  DNAToProtein                                 gen_amino_acids, gen_codon_alphabet, gen_table_is_code_points
   sequence/translate.py  Translate.window_size / __call__             gen_window_size, gen_window_reversed
   sequence/translate.py  WindowFunction.windowed                      gen_length_check, gen_out_length, gen_reshape_is_window_rows
@@ -17,10 +18,13 @@ Kernels (source function -> generated definition):
 
 Reading conventions (trusted, stated in notes/C14.md): a one-character str is its code point (`ord(c)` is c, `c.lower()` /
 `c.upper()` are Base.Prims.lower / upper); `for key, value in d.items()` visits the pairs of the dict literal in order and
-the statements of the body in order; `np.where(mask[:, np.newaxis], x, y)` takes x in the rows where the mask holds; an
+the statements of the body in order; `np.where(mask, x, y)` takes x where the mask holds (how a column mask `m[:, np.newaxis]` / an explicit
+ragged row mask reaches the rows is npstructures' business: Model.C14.where_pinned / where_flat); `np.repeat(m, lengths)` is
+Base.Prims.repeat_each; an
 element-wise expression over arrays is read per element (`size ** np.arange(k)` is j |-> size ^ j for j < k;
 `lengths // w`, `lengths % w == 0` per row); `a.dot(b)` is the sum of products.  A *where site* is emitted as
-(code point the strand is compared with, is the operand taken when the test holds the reverse complement).
+(code point the strand is compared with, is the operand taken when the test holds the reverse complement) plus
+gen_*_mask = (the mask is broadcast_row_mask(.., S), S is the first np.where operand).
 Everything is pattern-matched exactly; any other shape raises Unsupported and the definition is emitted as `unit`
 (the bridge lemma then no longer type-checks).
 """
@@ -199,18 +203,32 @@ def gen_revcomp(tree):
 
 
 def where_site(func, call, strand_srcs, seq_params=()):
-    """np.where((<strand> == "<c>")[:, np.newaxis], x, y) -> (ord c, x is the reverse complement).
-    One operand must be get_reverse_complement(S) (directly or through a once-assigned local), the other S itself."""
+    """np.where(<mask>, x, y) -> (ord c, x is the reverse complement, row form, mask broadcast over x) where <mask> is
+    `(<strand> == "<c>")[:, np.newaxis]` (column form: npstructures decides whether to broadcast; the code before the repair)
+    or `broadcast_row_mask(<strand> == "<c>", S)` with S one of the two operands (row form: explicit ragged mask).
+    One operand must be get_reverse_complement(S') (directly or through a once-assigned local), the other S' itself."""
     if not (isinstance(call, ast.Call) and src_of(call.func) == 'np.where' and len(call.args) == 3 and not call.keywords):
         raise Unsupported('not np.where(mask, x, y): %s' % src_of(call))
     m = call.args[0]
-    if not (isinstance(m, ast.Subscript) and isinstance(m.slice, ast.Tuple) and len(m.slice.elts) == 2
+    if (isinstance(m, ast.Subscript) and isinstance(m.slice, ast.Tuple) and len(m.slice.elts) == 2
             and isinstance(m.slice.elts[0], ast.Slice) and m.slice.elts[0].lower is None and m.slice.elts[0].upper is None
-            and m.slice.elts[0].step is None and src_of(m.slice.elts[1]) == 'np.newaxis'
-            and isinstance(m.value, ast.Compare) and len(m.value.ops) == 1 and isinstance(m.value.ops[0], ast.Eq)
-            and src_of(m.value.left) in strand_srcs):
-        raise Unsupported('mask is not (<strand> == "<c>")[:, np.newaxis]: %s' % src_of(m))
-    sym = char_const(m.value.comparators[0])
+            and m.slice.elts[0].step is None and src_of(m.slice.elts[1]) == 'np.newaxis'):
+        cmp_node, row_form, over_x = m.value, False, False
+    elif (isinstance(m, ast.Call) and src_of(m.func) == 'broadcast_row_mask' and len(m.args) == 2 and not m.keywords):
+        cmp_node, row_form = m.args[0], True
+        over = src_of(m.args[1])
+        if over == src_of(call.args[1]):
+            over_x = True
+        elif over == src_of(call.args[2]):
+            over_x = False
+        else:
+            raise Unsupported('row mask is broadcast over %s, which is neither np.where operand' % over)
+    else:
+        raise Unsupported('mask is neither (<strand> == "<c>")[:, np.newaxis] nor broadcast_row_mask(<strand> == "<c>", S): %s' % src_of(m))
+    if not (isinstance(cmp_node, ast.Compare) and len(cmp_node.ops) == 1 and isinstance(cmp_node.ops[0], ast.Eq)
+            and src_of(cmp_node.left) in strand_srcs):
+        raise Unsupported('mask test is not <strand> == "<c>": %s' % src_of(cmp_node))
+    sym = char_const(cmp_node.comparators[0])
 
     def resolve(node):
         """-> ('rc', S source) or ('fwd', source)"""
@@ -227,11 +245,49 @@ def where_site(func, call, strand_srcs, seq_params=()):
     (kx, sx), (ky, sy) = resolve(call.args[1]), resolve(call.args[2])
     if {kx, ky} != {'rc', 'fwd'} or sx != sy:
         raise Unsupported('operands are not a sequence and its reverse complement: %s / %s' % (src_of(call.args[1]), src_of(call.args[2])))
-    return sym, kx == 'rc'
+    return sym, kx == 'rc', row_form, over_x
+
+
+def imports_row_mask(tree, module_is_dna):
+    """broadcast_row_mask must be the helper of sequence/dna.py (defined there / imported from there, never rebound)"""
+    if module_is_dna:
+        defs = [n for n in tree.body if isinstance(n, ast.FunctionDef) and n.name == 'broadcast_row_mask']
+        ok = len(defs) == 1
+    else:
+        ok = any(isinstance(n, ast.ImportFrom) and n.level == 2 and n.module == 'sequence.dna'
+                 and any(a.name == 'broadcast_row_mask' and a.asname is None for a in n.names) for n in tree.body)
+    rebound = [n for n in ast.walk(tree) if isinstance(n, ast.Name) and n.id == 'broadcast_row_mask' and isinstance(n.ctx, ast.Store)]
+    if not ok or rebound:
+        raise Unsupported('broadcast_row_mask is not the helper of bionumpy/sequence/dna.py here')
+
+
+def gen_row_mask(tree):
+    """dna.py broadcast_row_mask(mask, sequences): RaggedArray(np.repeat(<mask as flat bool>, lengths), lengths),
+    lengths = sequences.lengths -> the flat data as a function of (mask, lengths); the shape is `lengths`."""
+    f = find_function(tree, 'broadcast_row_mask')
+    if [a.arg for a in f.args.args] != ['mask', 'sequences'] or f.args.vararg or f.args.kwarg or f.args.kwonlyargs or f.args.defaults:
+        raise Unsupported('unexpected parameters of broadcast_row_mask')
+    if f.decorator_list:
+        raise Unsupported('broadcast_row_mask is decorated')
+    got = [src_of(x) for x in body_statements(f)]
+    want = ['lengths = sequences.lengths',
+            'return RaggedArray(np.repeat(np.asarray(mask, dtype=bool).ravel(), lengths), lengths)']
+    if got != want:
+        raise Unsupported('broadcast_row_mask is not RaggedArray(np.repeat(mask, lengths), lengths): %r' % got)
+    if not any(isinstance(n, ast.ImportFrom) and n.module == 'npstructures' and n.level == 0
+               and any(a.name == 'RaggedArray' and a.asname is None for a in n.names) for n in tree.body):
+        raise Unsupported('RaggedArray is not npstructures.RaggedArray in dna.py')
+    return ('Definition gen_row_mask_flat (mask : list bool) (lengths : list Z) : list bool :=\n'
+            '  repeat_each mask lengths.\n'
+            'Definition gen_row_mask_shape_is_lengths : bool := true.\n')
 
 
 def fmt_site(name, site):
-    return 'Definition %s : Z * bool := (%d, %s).\n' % (name, site[0], 'true' if site[1] else 'false')
+    b = lambda v: 'true' if v else 'false'
+    assert name.endswith('_where')
+    return ('Definition %s : Z * bool := (%d, %s).\n' % (name, site[0], b(site[1]))
+            + '(* (mask is an explicit row mask broadcast_row_mask(.., S), S is the first np.where operand) *)\n'
+            + 'Definition %s : bool * bool := (%s, %s).\n' % (name[:-len('_where')] + '_mask', b(site[2]), b(site[3])))
 
 
 def gen_dna_stranded(tree):
@@ -250,6 +306,8 @@ def gen_dna_stranded(tree):
     txt = k.define('gen_dna_slice_start', ['start', 'stop'], rel.value.slice.lower)
     txt += k.define('gen_dna_slice_stop', ['start', 'stop'], rel.value.slice.upper)
     site = where_site(f, body[2].value, ('stranded_intervals.strand.ravel()', 'stranded_intervals.strand'))
+    if site[2]:
+        imports_row_mask(tree, True)
     # the sequence that is complemented must be the slices
     rc = body[1]
     if not (isinstance(rc, ast.Assign) and len(rc.targets) == 1 and isinstance(rc.targets[0], ast.Name)
@@ -273,6 +331,8 @@ def gen_genomic(tree):
         raise Unsupported('unexpected stranded branch: %s' % src_of(st))
     # `sequences` is re-assigned in this function, so the forward operand is matched by name here
     site = where_site(ast.Module(body=[], type_ignores=[]), call, ('intervals.strand', 'intervals.strand.ravel()'))
+    if site[2]:
+        imports_row_mask(tree, False)
     return fmt_site('gen_genomic_where', site)
 
 
@@ -282,6 +342,8 @@ def gen_genes(tree):
     if len(calls) != 1:
         raise Unsupported('get_transcript_sequences has %d np.where calls' % len(calls))
     site = where_site(ast.Module(body=[], type_ignores=[]), calls[0], ("as_encoded_array(''.join(strands))",))
+    if site[2]:
+        imports_row_mask(tree, False)
     return fmt_site('gen_genes_where', site)
 
 
@@ -388,6 +450,7 @@ def gen():
     emit(defs, 'gen_new_alphabet', lambda: gen_alpha(dna))
     emit(defs, 'gen_complement_rewraps_current_shape', lambda: gen_complement_shape(dna))
     emit(defs, 'gen_revcomp_reverses_rows', lambda: gen_revcomp(dna))
+    emit(defs, 'gen_row_mask_flat', lambda: gen_row_mask(dna))
     emit(defs, 'gen_dna_where', lambda: gen_dna_stranded(dna))
     emit(defs, 'gen_genomic_where', lambda: gen_genomic(parse('bionumpy/genomic_data/genomic_sequence.py')))
     emit(defs, 'gen_genes_where', lambda: gen_genes(parse('bionumpy/sequence/genes.py')))
